@@ -170,9 +170,9 @@ DD_ASSUME = ["std::timed_mutex behaves as the acquire/release semantics of the m
              "code between two scheduling points of one thread (scan / remove_if / erase under the lock, the release loop of "
              "ecall.clear()) is executed atomically with the preceding event; a scan racing with the last external owner is "
              "covered in the model by the `skip` parameter of the acquisition event (theorems hold for every skip list)",
-             "an object is identified with its address: every shared_ptr handed to the container for one address shares one "
-             "control block (two unrelated control blocks for the same address — aliasing constructor, no-op deleter — are "
-             "outside the modelled input domain; the code selects by address and by use_count, see seeded/C16-c)"]
+             "a handle is identified with its control block: alias handles (same address, own control block - aliasing "
+             "constructor) are objects of their own for the container, and the client exercises them (op l<k>o<j>); the alias "
+             "handle itself is never dereferenced"]
 
 
 DD_TIE = (" The model is tied to the source on every run: the unmodified header runs against substituted std primitives under a "
